@@ -122,7 +122,11 @@ def vendorColumns (t : ReaderTables) (h : List HLine) (nColsFile : Nat) :
 def hdrIds (h : List HLine) : List Nat := h.filterMap fun | .phase i => some i | _ => none
 def hdrNames (h : List HLine) : List Str :=
   h.filterMap fun | .materialName (t :: ts) => some (joinSp (t :: ts)) | _ => none
+/-- all words of the `Formula` field (since fb90b43) -/
 def hdrFormulas (h : List HLine) : List Str :=
+  h.filterMap fun | .formula (t :: ts) => some (joinSp (t :: ts)) | _ => none
+/-- the reader before the fix kept only the last word of `Formula` -/
+def hdrFormulasPreFix (h : List HLine) : List Str :=
   h.filterMap fun | .formula (t :: ts) => (t :: ts).getLast? | _ => none
 def hdrSyms (h : List HLine) : List Str := h.filterMap fun | .symmetry s => some s | _ => none
 def hdrLattices (h : List HLine) : List (List Int) := h.filterMap fun | .lattice v => some v | _ => none
@@ -342,12 +346,23 @@ def colVal (m : GridIn) (index : Option Int) (p : InPt) : Option Nat → Option 
   | none => some 0
   | some i => propVal m.props index p i
 
+/-- `_get_nrows_ncols_step_sizes` (since 8c013c0): a 1-D map whose points lie along y (`dx = 0`, `dy ≠ 0`) is
+written as one column, every other 1-D map as one row -/
+def isColumn (m : GridIn) : Bool := m.oneD && m.dx == 0 && m.dy != 0
+def wNrows (m : GridIn) : Nat := if m.oneD then (if isColumn m then m.ncols else 1) else m.nrows
+def wNcols (m : GridIn) : Nat := if m.oneD then (if isColumn m then 1 else m.ncols) else m.ncols
+def wDy (w : WriterTables) (m : GridIn) : Int := if m.oneD then (if isColumn m then m.dy else w.scale) else m.dy
+def wDx (w : WriterTables) (m : GridIn) : Int := if isColumn m then w.scale else m.dx
+
+/-- coordinates the writer before the fix gave point `j` of a 1-D map: always one row -/
+def coordsPreFix (w : WriterTables) (m : GridIn) (j : Nat) : Int × Int :=
+  (((j % m.ncols : Nat) : Int) * m.dx, ((j / m.ncols : Nat) : Int) * (if m.oneD then w.scale else m.dy))
+
 /-- one point of the written table (`none`: the code raises, e.g. layer index out of range) -/
 def outRow (w : WriterTables) (o : AngOpts) (m : GridIn) (cols : PropCols) (pl : List PhaseInfo)
     (j : Nat) (p : InPt) : Option OutRow :=
-  let dy := if m.oneD then w.scale else m.dy
-  let x := ((j % m.ncols : Nat) : Int) * m.dx
-  let y := ((j / m.ncols : Nat) : Int) * dy
+  let x := ((j % wNcols m : Nat) : Int) * wDx w m
+  let y := ((j / wNcols m : Nat) : Int) * wDy w m
   let ph := newPhaseId pl p
   if isIndexed p then
     match rotOf o.index p, colVal m o.index p cols.iq, colVal m o.index p cols.ci,
@@ -426,8 +441,8 @@ def writeAng (w : WriterTables) (o : AngOpts) (m : GridIn) : Option AngFile :=
       let hdr : List HLine :=
         [.other, .other, .other, .other, .other, .other]
         ++ blocks.reverse.flatten
-        ++ [.other, .grid (S "XSTEP") m.dx, .grid (S "YSTEP") m.dy, .grid (S "NCOLS_ODD") m.ncols,
-            .grid (S "NCOLS_EVEN") m.ncols, .grid (S "NROWS") m.nrows, .other, .other, .other, .other,
+        ++ [.other, .grid (S "XSTEP") m.dx, .grid (S "YSTEP") m.dy, .grid (S "NCOLS_ODD") (wNcols m),
+            .grid (S "NCOLS_EVEN") (wNcols m), .grid (S "NROWS") (wNrows m), .other, .other, .other, .other,
             .other, .other, .other, .columnNames names, .other]
       let pw := [colWidth w.scale (rows.map (·.iq)), colWidth w.scale (rows.map (·.ci)),
                  colWidth w.scale (rows.map (·.ds)), colWidth w.scale (rows.map (·.fit))]
